@@ -126,9 +126,9 @@ pub fn from_stfu8(encoded: &str) -> Result<OsString, DecodeError> {
     Ok(OsString::from_wide(&raw_bytes))
 }
 
-const SPECIAL_CHARS: [char; 25] = [
+const SPECIAL_CHARS: [char; 26] = [
     '|', '&', ';', '<', '>', '(', ')', '{', '}', '$', '`', '\\', '\'', '"', ' ', '\t', '*', '?',
-    '+', '[', ']', '#', '~', '=', '%',
+    '+', '[', ']', '#', '~', '=', '%', '!',
 ];
 
 /// Escapes special characters in a string, so that it will retain its literal meaning when used as
